@@ -1145,6 +1145,8 @@ class Machine(object):
         if k == "UnaryOperator" and n.get("opcode") == "*":
             p = self.rv(n["inner"][0], tu)
             return (p, resolve(tu.ctype(n.get("type"))))
+        if k == "UnaryOperator" and n.get("opcode") == "__extension__":
+            return self.lv(n["inner"][0], tu)
         if k == "ArraySubscriptExpr":
             a = self.rv(n["inner"][0], tu)
             b = self.rv(n["inner"][1], tu)
@@ -1182,12 +1184,16 @@ class Machine(object):
             p = self.alloc(t.size, "<compound literal>", "local")
             self.init_object(p, t, n["inner"][0], tu)
             return (p, t)
+        if k == "PredefinedExpr":
+            p = self.alloc_bytes(list(b"<function>\0"), "<__func__>", "string")
+            self.objs[p.obj].const = True
+            return (p, resolve(tu.ctype(n.get("type"))))
         if k == "StringLiteral":
             data = _string_value(n) + b"\0"
             p = self.alloc_bytes(list(data), "<string>", "string")
             self.objs[p.obj].const = True
             return (p, resolve(tu.ctype(n.get("type"))))
-        raise Undecided("lvalue kind %s" % k)
+        raise Undecided("lvalue kind %s%s (line %s)" % (k, " " + str(n.get("opcode")) if n.get("opcode") else "", self.line))
 
     # -- rvalues ------------------------------------------------------------------
     def rv(self, n, tu):
